@@ -10,6 +10,9 @@ What is proved about the code's own logic, for every number of parameters `n`:
 * `fit_at_truth_partial`  if moreover the optimiser returns its start whenever the gradient it is handed is below
   `pgtol` there (L-BFGS-B: projected-gradient test at iteration 0), `fit θ* = θ*` on noise-free data
   (`grad_zero_at_truth`: residual 0 ⇒ `diff_loss` 0 ⇒ `sens_to_grad` 0).
+* `fit_contract_all_forms_partial`, `fit_lower_only_partial`, `fit_unbounded_partial`, `fit_at_truth_all_forms_partial`
+  the same for every accepted form of the bounds (`lb=None`, `ub=None`, both, neither): a missing side is the all-`None`
+  vector (`prepBounds_ok`) and constrains nothing;
 * `box_bounds_C_counterexample`  with C order instead of 'F' the rows are NOT the pairs (the mutation).
 
 Full statements (not provable here, L-BFGS-B is not modelled):
@@ -210,6 +213,111 @@ theorem fit_at_truth_of_zero_residual (pgtol : Rat) (hp : 0 ≤ pgtol) (m : Mini
   rw [hsens] at hv
   rw [grad_zero_at_truth diffLoss S θ.length hres v hv]
   simpa using hp
+
+/-! ### every accepted form of the bounds (`lb=None`, `ub=None`, both, neither) -/
+
+/-- the bound vector the code works with: the one supplied, or `np.array([None]*len(x))` -/
+def effBounds (n : Nat) (b : Option (List (Option Rat))) : List (Option Rat) :=
+  b.getD (List.replicate n none)
+
+theorem effBounds_length (n : Nat) (b : Option (List (Option Rat))) (h : ∀ l, b = some l → l.length = n) :
+    (effBounds n b).length = n := by
+  cases b with
+  | none => simp [effBounds]
+  | some l => simpa [effBounds] using h l rfl
+
+/-- with every supplied side of the right length, the preprocessing yields the effective vectors, whatever sides are
+missing (no error path is taken) -/
+theorem prepBounds_ok (n : Nat) (lb ub : Option (List (Option Rat)))
+    (hl : ∀ l, lb = some l → l.length = n) (hu : ∀ u, ub = some u → u.length = n) :
+    prepBounds n lb ub = .ok (effBounds n lb, effBounds n ub) := by
+  cases lb with
+  | none => cases ub <;> simp [prepBounds, effBounds]
+  | some l =>
+    cases ub with
+    | none => simp [prepBounds, effBounds]
+    | some u =>
+      have h1 := hl l rfl
+      have h2 := hu u rfl
+      simp [prepBounds, effBounds, h1, h2]
+
+/-- a side that was not supplied constrains nothing -/
+theorem lowerOK_replicate_none (n i : Nat) (v : Rat) : lowerOK ((List.replicate n (none : Option Rat)).getD i none) v := by
+  have : (List.replicate n (none : Option Rat)).getD i none = none := by
+    rw [List.getD_eq_getElem?_getD]
+    by_cases h : i < n <;> simp [h]
+  rw [this]; trivial
+
+theorem upperOK_replicate_none (n i : Nat) (v : Rat) : upperOK ((List.replicate n (none : Option Rat)).getD i none) v := by
+  have : (List.replicate n (none : Option Rat)).getD i none = none := by
+    rw [List.getD_eq_getElem?_getD]
+    by_cases h : i < n <;> simp [h]
+  rw [this]; trivial
+
+/-- **fit stays in the box and does not get worse, for every accepted form of `lb` / `ub`** (partial: `BoxDescent`
+assumed of the optimiser, `hg` is property C07).  A missing side is the all-`None` vector: the statement then says
+nothing about that side, which is what the code does (scipy receives `None` entries there). -/
+theorem fit_contract_all_forms_partial (IsGrad : (List Rat → Rat) → (List Rat → List Rat) → Prop)
+    (m : Minimize (List Rat)) (hm : BoxDescent IsGrad m)
+    (cost : List Rat → Rat) (sens : List Rat → List Rat) (hg : IsGrad cost sens)
+    (x : List Rat) (lb ub : Option (List (Option Rat)))
+    (hl : ∀ l, lb = some l → l.length = x.length) (hu : ∀ u, ub = some u → u.length = x.length)
+    (hx : Within (effBounds x.length lb) (effBounds x.length ub) x) :
+    ∃ r, fit m cost sens x lb ub = .ok r
+      ∧ Within (effBounds x.length lb) (effBounds x.length ub) r ∧ cost r ≤ cost x := by
+  have e1 := effBounds_length x.length lb hl
+  have e2 := effBounds_length x.length ub hu
+  have hb : InBox (boxBounds (effBounds x.length lb) (effBounds x.length ub)) x :=
+    (inBox_boxBounds_iff _ _ (by omega) x).2 hx
+  refine ⟨m cost sens x (boxBounds (effBounds x.length lb) (effBounds x.length ub)) .lbfgsb, ?_, ?_,
+    hm.descent _ _ _ _ hg hb⟩
+  · simp [fit, prepBounds_ok x.length lb ub hl hu, chooseMethod]
+  · exact (inBox_boxBounds_iff _ _ (by omega) _).1 (hm.in_box _ _ _ _ hb)
+
+/-- **only a lower bound** (`fit(x, lb)`): the estimate keeps `lb ≤ r` and the cost does not get worse -/
+theorem fit_lower_only_partial (IsGrad : (List Rat → Rat) → (List Rat → List Rat) → Prop)
+    (m : Minimize (List Rat)) (hm : BoxDescent IsGrad m)
+    (cost : List Rat → Rat) (sens : List Rat → List Rat) (hg : IsGrad cost sens)
+    (x : List Rat) (lb : List (Option Rat)) (hl : lb.length = x.length)
+    (hx : ∀ i, i < x.length → lowerOK (lb.getD i none) (x.getD i 0)) :
+    ∃ r, fit m cost sens x (some lb) none = .ok r ∧ r.length = x.length
+      ∧ (∀ i, i < r.length → lowerOK (lb.getD i none) (r.getD i 0)) ∧ cost r ≤ cost x := by
+  have hW : Within (effBounds x.length (some lb)) (effBounds x.length none) x :=
+    ⟨by simp [effBounds, hl], fun i hi => ⟨by simpa [effBounds] using hx i hi,
+      by simpa [effBounds] using upperOK_replicate_none x.length i _⟩⟩
+  obtain ⟨r, hr, hw, hc⟩ := fit_contract_all_forms_partial IsGrad m hm cost sens hg x (some lb) none
+    (fun l h => by cases h; exact hl) (fun u h => by cases h) hW
+  refine ⟨r, hr, ?_, fun i hi => ?_, hc⟩
+  · have := hw.1; simp [effBounds] at this; omega
+  · simpa [effBounds] using (hw.2 i hi).1
+
+/-- **no bounds at all** (`fit(x)`): the packing is the all-`None` array, nothing is rejected, and the cost does not get
+worse (the estimate is unconstrained: negative rates are possible, which is why the doc-string recommends a box) -/
+theorem fit_unbounded_partial (IsGrad : (List Rat → Rat) → (List Rat → List Rat) → Prop)
+    (m : Minimize (List Rat)) (hm : BoxDescent IsGrad m)
+    (cost : List Rat → Rat) (sens : List Rat → List Rat) (hg : IsGrad cost sens) (x : List Rat) :
+    ∃ r, fit m cost sens x none none = .ok r ∧ r.length = x.length ∧ cost r ≤ cost x := by
+  have hW : Within (effBounds x.length none) (effBounds x.length none) x :=
+    ⟨by simp [effBounds], fun i hi => ⟨by simpa [effBounds] using lowerOK_replicate_none x.length i _,
+      by simpa [effBounds] using upperOK_replicate_none x.length i _⟩⟩
+  obtain ⟨r, hr, hw, hc⟩ := fit_contract_all_forms_partial IsGrad m hm cost sens hg x none none
+    (fun l h => by cases h) (fun u h => by cases h) hW
+  exact ⟨r, hr, by have := hw.1; simpa [effBounds] using this, hc⟩
+
+/-- the truth is returned for every form of the bounds as well -/
+theorem fit_at_truth_all_forms_partial (pgtol : Rat) (m : Minimize (List Rat)) (hs : StopsAtStationary pgtol m)
+    (cost : List Rat → Rat) (sens : List Rat → List Rat)
+    (θ : List Rat) (lb ub : Option (List (Option Rat)))
+    (hl : ∀ l, lb = some l → l.length = θ.length) (hu : ∀ u, ub = some u → u.length = θ.length)
+    (hgrad : ∀ v ∈ sens θ, |v| ≤ pgtol) :
+    fit m cost sens θ lb ub = .ok θ := by
+  simp [fit, prepBounds_ok θ.length lb ub hl hu, chooseMethod, hs cost sens θ _ hgrad]
+
+/-- non-vacuity: a start above a one-sided lower bound -/
+example : ∀ i, i < [1, 3].length → lowerOK ([some (0 : Rat), none].getD i none) (([1, 3] : List Rat).getD i 0) := by
+  intro i hi
+  have : i = 0 ∨ i = 1 := by simp at hi; omega
+  rcases this with rfl | rfl <;> simp [lowerOK]
 
 /-! ### non-vacuity -/
 
